@@ -4,3 +4,4 @@ HERE="$(cd "$(dirname "${BASH_SOURCE[0]}")/.." && pwd)"
 REPO="${VERIF_REPO:-/repo}"
 python3 "$HERE/gen/c20_sites.py" "$REPO" "$HERE/lean/RimeModel/Gen/CopySites.lean" > /dev/null
 python3 "$HERE/gen/c19_tables.py" "$REPO" "$HERE/lean/RimeModel/Gen/KeyTables.lean" > /dev/null
+python3 "$HERE/gen/keymaps.py" "$REPO" "$HERE/lean/RimeModel/Gen/Keymaps.lean" > /dev/null
